@@ -12,8 +12,8 @@ _PUSH_FUNCS = [
     "push::push_vm::stack::{Stack::*, HasStack::{not_full,with_push,with_replace}, PushOnto::{push_onto,replace_on}, StackPush, StackDiscard}",
     "push::error::{Error::{fatal,recoverable,is_fatal,state,error,map_inner_err}, MapInstructionError, IntoState}",
 ]
-_PUSH_BOUNDS = ("STEP lemma: every int (34) / float (18) / bool (13) instruction incl. literals, one harness per (instruction, operand-stack depth): quick = 'one short' and "
-                "'exactly enough' operands (thorough: every depth 0..=3, 0..=4 for Clamp, and a destination stack of depth 0); contents symbolic and full width (all i64 incl. "
+_PUSH_BOUNDS = ("STEP lemma: every int (34) / float (18) / bool (13) instruction incl. literals, one harness per (instruction, operand-stack depth): quick = 'exactly enough' operands for every instruction and 'one short' for a representative of every code shape "
+                "(the regular expression quick_skip in bin/props.py lists the instances left to the thorough tier; thorough: every depth 0..=3, 0..=4 for Clamp, and a destination stack of depth 0); contents symbolic and full width (all i64 incl. "
                 "extremes, all f64 bit patterns incl. NaN, infinities, signed zeros), every per-stack maximum a symbolic usize >= depth (so one-below-full and full, incl. "
                 "maximum 0, are inside), 2 symbolic output bytes.  Arithmetic kernels in the quick tier: Multiply/Square full width; ProtectedDivide/Mod with operands in "
                 "-128..=127 / -16..=16 plus i64::MIN, MIN+1, MAX; Power with (any base, exponent <= 2 incl. negative) and (base -3..=3, exponent 0..=70); float Multiply/ProtectedDivide "
@@ -41,6 +41,14 @@ for _pid, _a, _what in (("C01", "a01", "outcome, stacks and output equal the ref
         "modules": ["c01_stepgen::", "c01_print::", "c01_exec::", "c01_dispatch::", "c01_loop::"],
         "stubbing": True,
         "needs_rand_090": False,
+        # thorough-only instances (vp check measured the full list at > 900 s on a loaded machine): the Kani exec-stack harnesses (every exec
+        # instruction is decided on the MIR by bin/mirexec in both tiers), most of the print table, the second Power domain, two BLOCK
+        # instances, bool Push on a deeper stack, and the 'one operand short' instance of instructions whose sibling with the same code
+        # shape keeps its own (every 'exactly enough operands' instance stays)
+        "quick_skip": "^(c01_exec_|c01_print_(bool_false|float_1_5|float_inf|float_negzero|int_0|int_42|int_max|int_neg1)$|"
+                      "c01_println_(bool_true|float_1_5|float_inf|float_nan|int_0|int_42|int_max|int_min)$|c01_int_power_smallbase_|c01_block_(0|2_fit)$|c01_bool_push_d2$|"
+                      "c01_int_(abs|dec|inc|is_even|is_negative|is_odd|is_positive|is_zero|negate|flush)_d0$|c01_int_(subtract|max|min|not_equal|less_than_equal|greater_than|greater_than_equal)_d1$|"
+                      "c01_float_(not_equal|less_than_or_equal|greater_than|greater_than_or_equal)_d1$|c01_float_flush_d0$|c01_bool_(xor|implies)_d1$|c01_bool_(flush|not)_d0$)",
         # LOOP lemma labels (bin/mirloop) that belong to this property
         "mirloop": {"L1": ["C01", "C03"], "L2": ["C01", "C02"], "L4": ["C03"], "L5": ["C01", "C03"]},
         # STEP lemma for the exec-stack instructions on the MIR (bin/mirexec): exec depth bound per tier, labels per property
